@@ -78,6 +78,15 @@ where
         self.parent.is_empty()
     }
 
+    /// Verification hook: read-only copy of the parent and rank arrays.
+    #[cfg(feature = "verif-hooks")]
+    pub fn verif_raw(&self) -> (Vec<usize>, Vec<u8>) {
+        (
+            self.parent.iter().map(|k| k.index()).collect(),
+            self.rank.clone(),
+        )
+    }
+
     /// Adds a new disjoint set and returns the index of the new set.
     ///
     /// The new disjoint set is always added to the end, so the returned
@@ -144,6 +153,8 @@ where
     unsafe fn find_mut_recursive(&mut self, mut x: K) -> K {
         let mut parent = *get_unchecked(&self.parent, x.index());
         while parent != x {
+            #[cfg(feature = "verif-hooks")]
+            crate::verif::hit(crate::verif::Site::unionfind_halving_step);
             let grandparent = *get_unchecked(&self.parent, parent.index());
             *get_unchecked_mut(&mut self.parent, x.index()) = grandparent;
             x = parent;
